@@ -18,7 +18,7 @@ NTF_OPS = {"nwait", "notify"}
 CHAN_OPS = {"send", "recv", "tryrecv", "droprx", "rxhold", "rxrel"}
 ARC_OPS = {"aclone", "adrop", "acount", "agetmut", "aunwrap", "aintoraw", "afromraw", "aptreq", "ahold", "adropheld"}
 TRK_OPS = {"tnew", "tdrop", "tforget"}
-TL_OPS = {"tlwith", "tlnest"}
+TL_OPS = {"tlwith", "tlnest", "tlexit"}
 LZ_OPS = {"lzget", "lzread"}
 # operations that return a value (append to regs)
 RET_OPS = {"ld", "rmw", "cas", "await", "uld", "trylock", "tryread", "trywrite", "recv",
